@@ -11,12 +11,17 @@ Sibling of `Pipe.lean` for the capacity models of `components/server/concurrency
 `Server.handle_queued_event` acquires `weight` units, yields the service time, releases `weight`
 units.  `QueueDriver._poll_if_ready` asks `target.has_capacity()` — one unit — before it polls.
 
-Variant `current` is /repo HEAD: a granted poll dequeues whatever the policy hands out, the worker
-discards it when `acquire(weight)` fails; a raised limit is not announced to the driver.
-Variant `repaired` is HEAD + `fixes/C08-weighted-head-admission.diff` (the poll carries the worker's
-admission test, the queue applies it to the item it is about to hand out and answers with an empty
-delivery when it does not fit) + `fixes/C08-dynamic-scale-up-strand.diff` (a raised limit with work
-waiting sends the driver a `QueueNotifyEvent`).
+Two independent switches say which tree is modelled:
+
+* `wake` (default on = /repo HEAD since d187c1c): a `set_limit` that raises the limit while work is
+  queued pushes a `QueueNotifyEvent` for the driver.  Off = the code before that commit, where the
+  raised limit stayed unused until the next completion (`scale_up_strands_current`).
+* `admission` (default off = /repo HEAD): off — a granted poll dequeues whatever the policy hands out; if
+  `acquire(weight)` then fails the worker rejects the request and counts it in `requests_rejected`
+  (it never starts and takes no capacity).  On — the design suggestion
+  `fixes/C08-weighted-head-admission.diff`: the poll carries the worker's admission test, the queue
+  applies it to the item it is about to hand out and answers with an empty delivery when it does
+  not fit, so nothing is rejected after it left the queue.
 
 The queue is the list specification of the policy (held items in acceptance order, `pick` = what
 `pop` returns: oldest / newest / first minimal key); part 1 proves the deque / heap models of
@@ -24,9 +29,6 @@ The queue is the list specification of the policy (held items in acceptance orde
 As in `Pipe.lean` the schedule of deliveries is an input.
 -/
 namespace HappyModel.C08.PipeW
-
-inductive Variant | current | repaired
-deriving DecidableEq, Repr
 
 /-- which `ConcurrencyModel` the server was built with -/
 inductive Conc
@@ -45,7 +47,8 @@ structure WItem where
 deriving DecidableEq, Repr
 
 structure WCfg where
-  variant : Variant := .repaired
+  wake : Bool := true       -- a raised limit with work waiting notifies the driver (HEAD)
+  admission : Bool := false     -- the head admission test travels with the poll (design suggestion)
   conc : Conc := .fixed
   kind : QKind := .fifo
   cap : Option Nat := none
@@ -144,11 +147,9 @@ def stepNotify (s : WSt) : WSt × Res :=
   if s.nNotify = 0 then (s, .err)
   else ((pollIfReady { s with nNotify := s.nNotify - 1 }).1, .polled (pollIfReady { s with nNotify := s.nNotify - 1 }).2)
 
-/-- may the queue hand `it` out now?  (`repaired`: the worker's admission test travels with the poll) -/
+/-- may the queue hand `it` out now?  (`admission`: the worker's admission test travels with the poll) -/
 def admits (c : WCfg) (s : WSt) (it : WItem) : Bool :=
-  match c.variant with
-  | .current => true
-  | .repaired => fits s (wOf c it)
+  if c.admission then fits s (wOf c it) else true
 
 def stepPoll (c : WCfg) (s : WSt) : WSt × Res :=
   if s.nPoll = 0 then (s, .err)
@@ -186,7 +187,8 @@ def stepWork (c : WCfg) (s : WSt) (i : Nat) : WSt × Res :=
     if fits s (wOf c it) then
       ({ s with works := s.works.erase it, used := s.used + wOf c it, inService := s.inService ++ [it] }, .started true)
     else
-      -- the generator returns before its first yield: the completion hook runs at once
+      -- rejected and counted (`requests_rejected`); the generator returns before its first yield,
+      -- so the completion hook runs at once
       ((pollIfReady { s with works := s.works.erase it, rejected := s.rejected + 1 }).1, .started false)
 
 /-- the rest of `handle_queued_event`: `release(weight)`, count, completion hook -/
@@ -209,12 +211,9 @@ def newLimit (c : WCfg) (s : WSt) (n : Nat) : Nat :=
   | _ => s.limit
 
 def stepLimit (c : WCfg) (s : WSt) (n : Nat) : WSt × Res :=
-  match c.variant with
-  | .current => ({ s with limit := newLimit c s n }, .polled false)
-  | .repaired =>
-    if s.limit < newLimit c s n ∧ s.q ≠ [] then
-      ({ s with limit := newLimit c s n, nNotify := s.nNotify + 1 }, .polled true)
-    else ({ s with limit := newLimit c s n }, .polled false)
+  if c.wake = true ∧ s.limit < newLimit c s n ∧ s.q ≠ [] then
+    ({ s with limit := newLimit c s n, nNotify := s.nNotify + 1 }, .polled true)
+  else ({ s with limit := newLimit c s n }, .polled false)
 
 def step (c : WCfg) (s : WSt) : Act → WSt × Res
   | .arr it => stepArr c s it
